@@ -61,7 +61,17 @@ func Soft(rid string) Val { return Val{Kind: VSoft, RID: rid} }
 func Data(inner string) Val { return Val{Kind: VData, JSON: inner} }
 
 // Equal compares two values as a service would.
-func (v Val) Equal(w Val) bool { return v == w }
+// Equal compares two values the way the gateway does: a data value whose
+// content is a primitive is that primitive.
+func (v Val) Equal(w Val) bool {
+	if v.Kind == VData && dataInnerIsPrimitive(v.JSON) {
+		v.Kind = VPrim
+	}
+	if w.Kind == VData && dataInnerIsPrimitive(w.JSON) {
+		w.Kind = VPrim
+	}
+	return v == w
+}
 
 // ServiceJSON renders the value as a service sends it.
 func (v Val) ServiceJSON() string {
